@@ -6,7 +6,8 @@
 * seeded changes under /verif/seeded/<name>/patch.diff (written by independent sub-agents, confirmed against the real code)
   are replayed as must-fire variants when their meta.json says which check is expected to detect them.
 
-A variant whose anchor text is absent from the tree under test is *skipped* (the tree was edited), never failed.
+A variant whose anchor text is absent from the tree under test is *skipped* (the tree was edited), never failed; a derived
+transform that finds nothing to rewrite in its function (no `return <expr>`, no if/else) is counted as n/a.
 A must-fire variant that is not reported, or a silent variant that is, is a defect of the checker: exit 2
 (SELFTEST-FAIL), never a VIOLATION.  Scratch copies live under a mkdtemp directory outside /repo and /verif and are removed.
 """
@@ -295,7 +296,7 @@ def _apply(variant: dict, root: str) -> Optional[str]:
         out = {"rename_locals": rename_locals, "invert_ifs": invert_ifs, "return_via_temp": return_via_temp,
                "else_after_return": else_after_return}[kind](src, qual)
         if out is None:
-            return f"function {qual} not found in {rel}"
+            return f"N/A: nothing for {kind} to rewrite in {qual} ({rel}), or the function is absent"
         compile(out, path, "exec")
         with open(path, "w", encoding="utf-8") as f:
             f.write(out)
@@ -343,7 +344,7 @@ def _run_variant(job) -> dict:
         shutil.copytree(os.path.join(base, "funsor"), os.path.join(root, "funsor"))
         skip = _apply(variant, root)
         if skip:
-            res["status"] = "broken" if skip.startswith("VARIANT-BROKEN") else "skipped"
+            res["status"] = "broken" if skip.startswith("VARIANT-BROKEN") else "n/a" if skip.startswith("N/A") else "skipped"
             res["detail"] = skip
             return res
         ev = os.path.join(root, "ev")
